@@ -9,6 +9,11 @@ Script2 == [s \in Shards2 |->
 Script2p == [s \in Shards2 |->
    IF s = "sa_101v0" THEN << <<M("ins", "p1"), M("dropp", "p1")>>, <<M("ins", "_default")>> >>
                      ELSE << <<M("del", "p1")>>, <<M("ins", "p1")>>, <<M("dropp", "p1"), M("ins", "_default")>> >>]
+\* a partition that is dropped before one of the shards carried any row of it (created and dropped empty, or all its rows
+\* hashed to the other shard): that shard meets the drop message without ever having looked the partition up
+Script2q == [s \in Shards2 |->
+   IF s = "sa_101v0" THEN << <<M("dropp", "p1")>>, <<M("ins", "_default")>> >>
+                     ELSE << <<M("ins", "p1")>>, <<M("dropp", "p1"), M("ins", "_default")>> >>]
 Script2n == [s \in Shards2 |-> << <<M("ins", "p1")>>, <<M("ins", "_default")>> >>]
 Shards3 == {"sa_101v0", "sb_101v1", "sc_101v2"}
 Script3 == [s \in Shards3 |->
